@@ -99,7 +99,7 @@ func genC20(r *Rng, tier string, emit func(string, Tok)) {
 	// long histories of rewinds on streams whose PAT names two PMT PIDs in two sections, or two programs on one PMT
 	// PID, repeated several times per pass: 130..260 rewinds after one to three calls each, or after whole passes
 	for k := 0; k < scale(tier, 6, 40); k++ {
-		m := genRefStream(r, streamOpts{PESPIDs: r.Range(1, 2), UnitsPerPID: 2, MaxPES: 200, Tables: true, Repeats: r.Range(1, 3), TwoPMTPIDs: k%2 == 0})
+		m := genRefStream(r, streamOpts{PESPIDs: r.Range(1, 2), UnitsPerPID: 2, MaxPES: 200, Tables: true, Repeats: r.Range(1, 3), TwoPMTPIDs: k%2 == 0, SharedPMT: k%2 == 1})
 		data := m.bytes()
 		total := len(runScenario(scenario{kind: 1, optSize: 188, fault: -1, data: data, ops: []int{3}}).results)
 		var ops []int
